@@ -1,6 +1,9 @@
 package c13
 
 import (
+	"fmt"
+	"regexp"
+	"strconv"
 	"strings"
 	"time"
 
@@ -11,10 +14,108 @@ import (
 
 // Run generates the C13 cases.
 func Run(r *hk.Run) {
-	r.Res.Rule = "a case = one random storage tree (depth ≤ 3; inner namespace, proxycache[max] over memcache[max] or a store, overlay, shard, replica, cond; leaves memory, some localdisk/diskpacked) whose EVERY leaf sits behind a fault wrapper with its own call schedule (call i of that leaf: none / fails before any effect / takes effect but answers an error), and a history of single-key receive/fetch/stat/remove and enumerate; thorough: for a history, one case per (leaf, call index the healthy run makes, failure kind) = single faults exhaustively, plus random bursts; every op under a watchdog. Oracle: three-valued reference map (a failed receive/remove leaves its key undetermined until the next successful read resolves it); an error answer needs an injected failure, every other answer must be exact for some resolution, and once all schedules are exhausted the store must answer exactly like the reference map. Generator restrictions that keep per-leaf call numbers deterministic (the model has no scheduler): trees with an overlay below a merging node (shard/replica/cond/overlay) enumerate only in the quiet phase and with an unreachable limit; no replica/cond below a proxycache origin; trees with replica/cond have memory leaves only; after every op the harness waits until the goroutines the op started have ended. distinct_nontrivial = distinct (tree shape, schedule pattern) pairs in which at least one failure was injected and the quiet continuation was reached"
+	r.Res.Rule = "a case = one random storage tree (depth ≤ 3; inner namespace, proxycache[max] over memcache[max] or a store, overlay, shard, replica, cond; leaves memory, some localdisk/diskpacked) whose EVERY leaf sits behind a fault wrapper with its own call schedule (call i of that leaf: none / fails before any effect / takes effect but answers an error), and a history of single-key receive/fetch/stat/remove and enumerate; thorough: for a history, one case per (leaf, call index the healthy run makes, failure kind) = single faults exhaustively, plus random bursts; every op under a watchdog. Oracle: three-valued reference map (a failed receive/remove leaves its key undetermined until the next successful read resolves it); an error answer needs an injected failure, every other answer must be exact for some resolution, and once all schedules are exhausted the store must answer exactly like the reference map. Below the Storage interface (sweep.go, child processes): for the files store over a recording VFS and for diskpacked over a recording index KeyValue, every lower-layer call (counted from the call log of a healthy run) of receive-new / re-receive of an acknowledged blob / remove / remove-absent / fetch / stat / enumerate fails once in each of its modes (no effect; effect but error answer), on a store holding acknowledged blobs; after each: answer is an error or exact, every acknowledged unremoved blob is fetched back intact and stat'ed, the op's own blob is absent or intact, enumerate lists exactly what can be fetched, a healthy retry succeeds and leaves the exact state, diskpacked re-indexes. Generator restrictions that keep per-leaf call numbers deterministic (the model has no scheduler): trees with an overlay below a merging node (shard/replica/cond/overlay) enumerate only in the quiet phase and with an unreachable limit; no replica/cond below a proxycache origin; trees with replica/cond have memory leaves only; after every op the harness waits until the goroutines the op started have ended. distinct_nontrivial = distinct (tree shape, schedule pattern) pairs in which at least one failure was injected and the quiet continuation was reached"
 	genCases(r)
 	mechanisms(r)
+	sweeps(r)
 	probes(r)
+}
+
+// sweeps: exhaustive single faults over every lower-layer call (VFS call of the files store, index
+// KeyValue call of diskpacked) of receive-new / re-receive / remove / remove-absent / fetch / stat /
+// enumerate (sweep.go), in child processes.
+func sweeps(r *hk.Run) {
+	var lines, setApplied []string
+	sizes := []int{40}
+	maxes := []int{0, 150}
+	if r.Thorough() {
+		sizes = []int{0, 1, 40, 100000}
+		maxes = []int{0, 100, 150}
+	}
+	for _, sz := range sizes {
+		lines = append(lines, fmt.Sprintf("probe filessweep %d", sz))
+		for _, m := range maxes {
+			lines = append(lines, fmt.Sprintf("probe dpsweep %d %d", sz, m))
+		}
+	}
+	for _, l := range lines {
+		o, st := childProbe(r, l, 300*time.Second)
+		which := "files"
+		if strings.Contains(l, "dpsweep") {
+			which = "diskpacked"
+		}
+		f := strings.Fields(o)
+		if st != "exit0" || len(f) < 6 || !strings.HasPrefix(f[len(f)-1], "violations=") && !strings.Contains(o, " violations=") {
+			r.Fail("lower-layer-sweep-did-not-finish:"+which, l, "a sweep result", trunc(o)+" ["+st+"]", []string{l})
+			continue
+		}
+		total := 0
+		for _, x := range f {
+			k, v, ok := strings.Cut(x, "=")
+			if !ok {
+				continue
+			}
+			switch k {
+			case "calls", "cases":
+				for _, kv := range strings.Split(v, ",") {
+					sc, ns, _ := strings.Cut(kv, ":")
+					n, _ := strconv.Atoi(ns)
+					if k == "cases" {
+						r.Res.Histogram["sweep:"+which+":"+sc] += n
+						r.Res.Evals += n
+						total += n
+						if n > 0 {
+							r.Distinct("sweep " + l + " " + sc)
+						}
+					} else if n > r.Res.Histogram["sweep:"+which+":max-lower-layer-calls:"+sc] {
+						r.Res.Histogram["sweep:"+which+":max-lower-layer-calls:"+sc] = n
+					}
+				}
+			case "faulted":
+				for _, nm := range strings.Split(v, ",") {
+					r.Hit("sweep:" + which + ":faulted-call:" + nm)
+				}
+			}
+		}
+		if total == 0 {
+			r.Fail("lower-layer-sweep-empty:"+which, l, "faulted cases", trunc(o), []string{l})
+		}
+		if i := strings.Index(o, " violations="); i >= 0 {
+			rest := strings.TrimSpace(o[i+1:])
+			_, list, _ := strings.Cut(rest, " ")
+			for _, v := range strings.Split(list, ";") {
+				if v == "" {
+					continue
+				}
+				if which == "diskpacked" && strings.HasPrefix(v, "recv-new/") && strings.Contains(v, "-Set-a:") {
+					setApplied = append(setApplied, v)
+				}
+				r.Fail(sweepSignature(which, v), l+": "+v, "error or exact answer; acknowledged blobs intact; nothing partial visible; retry succeeds", v, []string{l})
+			}
+		}
+	}
+	r.Hit("mechanism:temp-file-removed-on-receive-error")
+	r.Hit("mechanism:diskpacked-append-undone")
+	// F-C13-11: an index Set that took effect but answered an error left a row without data
+	r.Probe("F-C13-11", len(setApplied) > 0, fmt.Sprintf("diskpacked receive of a new blob, index Set applied but answered an error: %d violations %v", len(setApplied), setApplied))
+}
+
+var digitsRe = regexp.MustCompile(`[0-9]+`)
+
+// sweepSignature: "<store>-sweep:<scenario>:<failing call>-<mode>:<check>" with numbers dropped; the one
+// known violation (F-C13-9) keeps its own signature.
+func sweepSignature(which, v string) string {
+	where, check, _ := strings.Cut(v, ":")
+	sc, call, _ := strings.Cut(where, "/")
+	if i := strings.IndexByte(check, '('); i >= 0 {
+		check = check[:i]
+	}
+	call = strings.TrimPrefix(digitsRe.ReplaceAllString(call, ""), "call-")
+	check = digitsRe.ReplaceAllString(check, "")
+	if which == "diskpacked" && sc == "rm" && call == "CommitBatch-b" && check == "blob-fetched-as-zeros" {
+		return "diskpacked-failed-remove-serves-zeros"
+	}
+	return which + "-sweep:" + sc + ":" + call + ":" + check
 }
 
 // mechanisms exercises the property's anchored mechanisms that sit below the Storage interface
